@@ -98,13 +98,30 @@ def cmp_cond(op, a, b):
     if op in ('>', '>='):
         d = -d
         op = {'>': '<', '>=': '<='}[op]
+    d = _pos_scale(d)
     if op in ('==', '!='):
         # sign-normalise
-        n, dd = d._canon()
-        first = sorted(n.t.items(), key=lambda kv: repr(kv[0]))[0][1] if n.t else 0
-        if first < 0:
+        lead = _lead(d)
+        if lead < 0:
             d = -d
     return ('cmp', op, d.canon_key(), d)
+
+
+def _lead(d):
+    n, _ = d._canon()
+    if not n.t:
+        return 0
+    return sorted(n.t.items(), key=lambda kv: repr(tuple((repr(a.key()), p) for a, p in kv[0])))[0][1]
+
+
+def _pos_scale(d):
+    """divide by |leading coefficient| when the denominator is constant (keeps every comparison)"""
+    if not d.d.is_const() or d.n.is_zero():
+        return d
+    lead = _lead(d)
+    if lead == 0:
+        return d
+    return Rat(d.n.scale(1 / abs(lead)), d.d)
 
 
 def neg_cond(c):
@@ -139,6 +156,24 @@ def cond_key(c):
     if c[0] == 'truth':
         return ('truth', c[1].canon_key() if isinstance(c[1], Rat) else repr(c[1]))
     return c
+
+
+def cond_arg(c):
+    """structural form of a condition usable as an App argument (Rats stay substitutable)."""
+    if c[0] == 'cmp':
+        return ('cmp', c[1], c[3])
+    if c[0] in ('and', 'or'):
+        return (c[0],) + tuple(sorted((cond_arg(x) for x in c[1:]), key=lambda t: repr(cond_key_of_arg(t))))
+    if c[0] == 'not':
+        return ('not', cond_arg(c[1]))
+    if c[0] == 'truth':
+        return ('truth', c[1])
+    return c
+
+
+def cond_key_of_arg(t):
+    from .sym import _ckey
+    return _ckey(t)
 
 
 def cond_repr(c):
@@ -234,7 +269,7 @@ class Interp:
         if isinstance(v, Opaque):
             return Rat.atom(App('opaque', [v.text]))
         if isinstance(v, tuple) and v and v[0] in ('cmp', 'and', 'or', 'not', 'truth', 'const'):
-            return Rat.atom(App('bool', [cond_key(v)]))
+            return Rat.atom(App('bool', [cond_arg(v)]))
         if v is None:
             return Rat.atom(App('none', []))
         if isinstance(v, str):
@@ -400,6 +435,13 @@ class Interp:
                 return Rat.const(r)
         if name == 'pow':
             return Rat.atom(App('pow', args))
+        if name == 'arctan2' and args[0].d.is_const() and args[1].d.is_const():
+            # arctan2 is invariant under a common positive scale
+            ref = args[0] if not args[0].n.is_zero() else args[1]
+            lead = _lead(ref)
+            if lead != 0:
+                k = Rat.const(1 / abs(lead))
+                args = [args[0] * k, args[1] * k]
         return Rat.atom(App(name, args))
 
     def ev_Compare(self, e):
@@ -434,7 +476,7 @@ class Interp:
         b = self.as_scalar(self.ev(e.orelse), e)
         if a == b:
             return a
-        return Rat.atom(App('ite', [cond_key(c), a, b]))
+        return Rat.atom(App('ite', [cond_arg(c), a, b]))
 
     def cond_of(self, v, node):
         if isinstance(v, tuple) and v and v[0] in ('cmp', 'and', 'or', 'not', 'truth', 'const'):
@@ -444,11 +486,11 @@ class Interp:
     def ev_Subscript(self, e):
         base = self.ev(e.value)
         if isinstance(base, tuple) and base and base[0] == 'shape':
+            if isinstance(e.slice, ast.Slice):
+                return ('shape-slice', base[1], norm(e.slice))
             i = self.ev(e.slice)
             if isinstance(i, Rat) and i.is_const():
                 return shape_sym(base[1].name, int(i.const_value()))
-            if isinstance(e.slice, ast.Slice):
-                return ('shape-slice', base[1], norm(e.slice))
             self.incomplete(e, 'shape index')
         if isinstance(base, tuple) and base and base[0] == 'shape-slice':
             self.incomplete(e, 'index of a shape slice')
@@ -612,7 +654,7 @@ class Interp:
             args = [self.ev(a) for a in args_nodes]
             if len(args) == 3:
                 c = self.cond_of(args[0], e)
-                return Rat.atom(App('ite', [cond_key(c), self.as_scalar(args[1], e), self.as_scalar(args[2], e)]))
+                return Rat.atom(App('ite', [cond_arg(c), self.as_scalar(args[1], e), self.as_scalar(args[2], e)]))
             return Opaque(norm(e))
         if dn in ('numpy.array', 'numpy.asarray'):
             v = self.ev(args_nodes[0])
@@ -667,6 +709,8 @@ class Interp:
         if short == 'full':
             fv = e.args[1] if len(e.args) > 1 else kw.get('fill_value')
             a.init = ('full', self.as_scalar(self.ev(fv), e))
+            if a.init[1] == Rat.atom(App('nan', [])):
+                a.init = 'nan'
         return a
 
     def func_call(self, f, e):
@@ -808,6 +852,12 @@ class Interp:
                 for i, te in enumerate(t.elts):
                     self.assign(te, shape_sym(v[1].name, i), node)
                 return
+            if isinstance(v, tuple) and v and v[0] == 'shape-slice' and v[2].replace(' ', '') == '-2:' \
+                    and len(t.elts) == 2:
+                # h, w = raster.shape[-2:]  (2-D rasters: axes 0 and 1)
+                for i, te in enumerate(t.elts):
+                    self.assign(te, shape_sym(v[1].name, i), node)
+                return
             sv = self.as_scalar(v, node)
             for i, te in enumerate(t.elts):
                 self.assign(te, Rat.atom(App('unpack', [sv, Rat.const(i)])), node)
@@ -885,7 +935,7 @@ class Interp:
                 merged[name] = a
                 continue
             if isinstance(a, Rat) and isinstance(b, Rat):
-                merged[name] = a if a == b else Rat.atom(App('ite', [cond_key(c), a, b]))
+                merged[name] = a if a == b else Rat.atom(App('ite', [cond_arg(c), a, b]))
             elif _is_cond(a) and _is_cond(b):
                 merged[name] = ('or', ('and', c, a), ('and', neg_cond(c), b)) if cond_key(a) != cond_key(b) else a
             elif a is None or b is None or isinstance(a, (Arr, View, TupleV, Opaque)) or \
@@ -896,7 +946,7 @@ class Interp:
                     try:
                         sa = self.as_scalar(a) if a is not None else Rat.atom(App('undef', []))
                         sb = self.as_scalar(b) if b is not None else Rat.atom(App('undef', []))
-                        merged[name] = Rat.atom(App('ite', [cond_key(c), sa, sb]))
+                        merged[name] = Rat.atom(App('ite', [cond_arg(c), sa, sb]))
                     except AnalysisIncomplete:
                         merged[name] = Opaque('phi(%s)' % name)
             else:
@@ -1040,7 +1090,7 @@ def merge_returns(returns, interp):
             if not g:
                 return None
             c = g[0] if len(g) == 1 else ('and',) + tuple(g)
-            out = v if v == out else Rat.atom(App('ite', [cond_key(c), v, out]))
+            out = v if v == out else Rat.atom(App('ite', [cond_arg(c), v, out]))
         return out
     if all(isinstance(v, TupleV) for v, _ in vals) and len({len(v.items) for v, _ in vals}) == 1:
         items = []
